@@ -6,7 +6,6 @@ import (
 	"sort"
 	"strings"
 
-	"golang.org/x/tools/go/ssa"
 
 	"utilcheck/flow"
 	"utilcheck/lang"
@@ -35,17 +34,8 @@ func runC09(e *Env) {
 		ruleFromTime(e, "C09.new", a)
 	}
 	e.S.Floor("C09.new", 7)
-	dp := e.Fn("C09.valid", "date", "DefaultParser")
-	if dp != nil {
-		e.Flow(func(c *flow.Ctx) { c.RuleCalendarParser(dp) })
-	}
-	if dp != nil {
-		newFn := e.F("date", "New")
-		e.Flow(func(c *flow.Ctx) {
-			c.RuleCaptureToArgs("C09.comp", dp, func(f *ssa.Function) bool { return f == newFn }, []int64{1, 2, 3}, []string{"year", "month", "day"})
-		})
-	}
-	e.S.Floor("C09.comp", 3)
+	ruleC09Sem(e)
+	e.S.Floor("C09.comp", 1)
 	e.S.Floor("C09.valid", 1)
 	ruleErrZero(e, "C09.errzero", "date")
 	ruleWrap(e, "C09.wrap", "date")
@@ -383,5 +373,182 @@ func ruleC09Layout(e *Env) {
 		e.S.Ok(rule, site, "needs calendar guard", fmt.Sprintf("the layout language alone contains non-dates (shortest: %q); rejecting them is the job of the guard checked by C09.valid", w), "")
 	} else {
 		e.S.Ok(rule, site, "needs calendar guard", "the layout language contains real dates only", "")
+	}
+}
+
+// ruleC09Sem: the date parser's construction and calendar guard, decided on its decision tree instead of its shape.
+// DefaultParser is evaluated on an input of the extended layout (YYYY-MM-DD, within the limit, flags clear) with
+// the match returning opaque captures, strconv.Atoi(capture k) an opaque number num(k), New and Date()/Year()/
+// Month()/Day() uninterpreted. The comparisons between a component of New(...) and a parsed number are the atoms:
+//   C09.comp  — the value accepted is New(num(1), num(2), num(3));
+//   C09.valid — it is accepted only on the valuation where year, month and day of the constructed date were each
+//               compared with the number parsed from the matching capture and found equal; every other valuation
+//               ends in an error. Helpers, early exits and the order of the three comparisons do not matter.
+func ruleC09Sem(e *Env) {
+	dp := e.Fn("C09.valid", "date", "DefaultParser")
+	if dp == nil {
+		return
+	}
+	site := flow.FnName(dp)
+	pos := e.Pos(dp)
+	comp := func(k int) pred.Summary {
+		return func(ev *pred.Evaluator, args []pred.Val) (pred.Val, error) {
+			return pred.Term{Fn: fmt.Sprintf("Date#%d", k), Args: args[:1]}, nil
+		}
+	}
+	sums := map[string]pred.Summary{
+		"go.lstv.dev/util/date.New": func(ev *pred.Evaluator, args []pred.Val) (pred.Val, error) {
+			return pred.Term{Fn: "New", Args: args}, nil
+		},
+		"(go.lstv.dev/util/date.Date).Date": func(ev *pred.Evaluator, args []pred.Val) (pred.Val, error) {
+			return pred.Tuple{pred.Term{Fn: "Date#0", Args: args}, pred.Term{Fn: "Date#1", Args: args}, pred.Term{Fn: "Date#2", Args: args}}, nil
+		},
+		"(go.lstv.dev/util/date.Date).Year":  comp(0),
+		"(go.lstv.dev/util/date.Date).Month": comp(1),
+		"(go.lstv.dev/util/date.Date).Day":   comp(2),
+		"strconv.Atoi": func(ev *pred.Evaluator, args []pred.Val) (pred.Val, error) {
+			return pred.Tuple{pred.Term{Fn: "num", Args: args}, pred.Const{}}, nil
+		},
+	}
+	for _, n := range []string{"(*regexp.Regexp).FindSubmatch", "(*regexp.Regexp).FindStringSubmatch"} {
+		sums[n] = func(ev *pred.Evaluator, args []pred.Val) (pred.Val, error) {
+			sv := &pred.SliceV{}
+			for i := 0; i < 4; i++ {
+				sv.Elems = append(sv.Elems, &pred.Cell{V: pred.Sym{Name: fmt.Sprintf("cap%d", i)}, Name: "capture"})
+			}
+			return sv, nil
+		}
+	}
+	const layout = "0000-00-00" // the extended layout; only the positions of '-' matter
+	fixed := func(a, b pred.Val) (int, bool, bool) {
+		as, bs := a.String(), b.String()
+		c, isC := b.(pred.Const)
+		switch {
+		case as == "*date.MaxInputLength" && bs == "0":
+			return 0, true, true
+		case as == "len(input)" && isC && c.V != nil && c.V.Kind() == constant.Int:
+			k, _ := constant.Int64Val(c.V)
+			return sgn(len(layout) - int(k)), true, true
+		}
+		if el, ok := a.(pred.Elem); ok && el.Base.String() == "input" && isC && c.V != nil {
+			off := -1
+			if af, ok := el.Index.(pred.Affine); ok && af.X.String() == "len(input)" && af.C < 0 {
+				off = len(layout) + int(af.C)
+			} else if ic, ok := el.Index.(pred.Const); ok && ic.V != nil {
+				if k, exact := constant.Int64Val(ic.V); exact {
+					off = int(k)
+				}
+			}
+			if off >= 0 && off < len(layout) {
+				want, _ := constant.Int64Val(c.V)
+				return sgn(int(layout[off]) - int(want)), true, true
+			}
+		}
+		if bits, ok := a.(pred.Bits); ok && bs == "0" {
+			for _, bit := range bits.B {
+				if bit.K == '1' {
+					return 1, true, true
+				}
+			}
+			return 0, true, true // rule flags clear
+		}
+		return 0, false, false
+	}
+	guardOf := func(v pred.Val) (int, bool) { // component k of New(…)
+		t, ok := v.(pred.Term)
+		if !ok || !strings.HasPrefix(t.Fn, "Date#") || len(t.Args) != 1 || !strings.HasPrefix(t.Args[0].String(), "New(") {
+			return 0, false
+		}
+		return int(t.Fn[len("Date#")] - '0'), true
+	}
+	numOf := func(v pred.Val) (int, bool) { // num(capJ)
+		t, ok := v.(pred.Term)
+		if !ok || t.Fn != "num" || len(t.Args) != 1 {
+			return 0, false
+		}
+		s := t.Args[0].String()
+		if !strings.HasPrefix(s, "cap") || len(s) != 4 {
+			return 0, false
+		}
+		return int(s[3] - '0'), true
+	}
+	keyOf := func(a, b pred.Val) (string, bool) {
+		for _, p := range [][2]pred.Val{{a, b}, {b, a}} {
+			if k, ok := guardOf(p[0]); ok {
+				if j, ok := numOf(p[1]); ok {
+					return fmt.Sprintf("guard %d~%d", k, j), true
+				}
+			}
+		}
+		return "", false
+	}
+	mk := func() []pred.Val { return []pred.Val{pred.Sym{Name: "input"}, pred.Sym{Name: "r"}} }
+	leaves, err := extractTree(e.P.SSA, dp, mk, sums, fixed, keyOf, binDomain)
+	if err != nil {
+		e.S.Unk("C09.valid", site, "guard", "not evaluable: "+err.Error(), pos)
+		return
+	}
+	names := []string{"year", "month", "day"}
+	accepts, guardBad, compBad, und := 0, "", "", ""
+	for _, lf := range leaves {
+		if lf.Err != nil {
+			und = lf.Err.Error()
+			break
+		}
+		t, ok := lf.Out.Ret.(pred.Tuple)
+		if !ok || len(t) != 2 {
+			und = "unexpected result " + lf.Out.Ret.String()
+			break
+		}
+		accepted := t[1].String() == "nil"
+		allEqual, missing, foreign := true, "", ""
+		for k := 0; k < 3; k++ {
+			v, asked := lf.Assign[fmt.Sprintf("guard %d~%d", k, k+1)]
+			if !asked {
+				missing = names[k]
+			} else if v != 0 {
+				allEqual = false
+			}
+		}
+		for key := range lf.Assign {
+			var k, j int
+			if n, _ := fmt.Sscanf(key, "guard %d~%d", &k, &j); n == 2 && j != k+1 {
+				foreign = fmt.Sprintf("the %s of the constructed date is compared with the number of capture %d", names[k], j)
+			}
+		}
+		switch {
+		case foreign != "":
+			guardBad = foreign
+		case accepted && missing != "":
+			guardBad = "a text is accepted without the " + missing + " of the constructed date having been compared with the parsed " + missing + ": time.Date normalises an impossible " + missing + " into another date"
+		case accepted && !allEqual:
+			guardBad = "a text is accepted although a component of the constructed date differs from the parsed one {" + lf.String() + "}"
+		case !accepted && allEqual && missing == "":
+			guardBad = "a date whose three components survive the construction unchanged is rejected {" + lf.String() + "}"
+		}
+		if accepted {
+			accepts++
+			if got, want := t[0].String(), "New(num(cap1),num(cap2),num(cap3))"; got != want {
+				compBad = "the accepted value is " + got + ", documented " + want + " (year, month, day from captures 1, 2, 3)"
+			}
+		}
+	}
+	switch {
+	case und != "":
+		e.S.Unk("C09.valid", site, "guard", "not evaluable: "+und, pos)
+		e.S.Unk("C09.comp", site, "construction", "not evaluable: "+und, pos)
+		return
+	case accepts == 0:
+		guardBad = "no valuation accepts a text of the extended layout"
+	}
+	if guardBad != "" {
+		e.S.Bad("C09.valid", site, "guard", guardBad, pos, "2021-02-30")
+	} else {
+		e.S.Ok("C09.valid", site, "guard", "accepted exactly when year, month and day of New(…) each equal the parsed numbers; every other valuation is an error", pos)
+	}
+	if compBad != "" {
+		e.S.Bad("C09.comp", site, "construction", compBad, pos, "")
+	} else if accepts > 0 {
+		e.S.Ok("C09.comp", site, "construction", "accepted value = New(number of capture 1, of capture 2, of capture 3)", pos)
 	}
 }
